@@ -145,30 +145,101 @@ def _load(text: str, d: str) -> Tuple[str, str]:
     return "accepted", ""
 
 
+# a second base for the rules that need several parents
+BASE_MI = '''\
+@abstract
+@invariant(lambda self: len(self.ident) >= 1, "Ident non-empty")
+class Identifiable(DBC):
+    """Represent something identifiable."""
+
+    ident: str
+    """Identifier"""
+
+    def __init__(self, ident: str) -> None:
+        self.ident = ident
+
+
+@abstract
+@invariant(lambda self: len(self.name) >= 1, "Name non-empty")
+class Named(Identifiable):
+    """Represent something named."""
+
+    name: str
+    """Name"""
+
+    def __init__(self, ident: str, name: str) -> None:
+        Identifiable.__init__(self, ident)
+        self.name = name
+
+
+@abstract
+@invariant(lambda self: len(self.label) >= 1, "Label non-empty")
+class Labeled(Identifiable):
+    """Represent something labeled."""
+
+    label: str
+    """Label"""
+
+    def __init__(self, ident: str, label: str) -> None:
+        Identifiable.__init__(self, ident)
+        self.label = label
+
+
+@invariant(lambda self: len(self.size) >= 1, "Size non-empty")
+class Item(Named, Labeled):
+    """Represent an item."""
+
+    size: str
+    """Size"""
+
+    def __init__(self, ident: str, name: str, label: str, size: str) -> None:
+        Named.__init__(self, ident, name)
+        Labeled.__init__(self, ident, label)
+        self.size = size
+
+
+__version__ = "dummy"
+__xml_namespace__ = "https://dummy.com"
+'''
+
+MUTANTS_MI: List[Tuple[str, str, str, str]] = [
+    ("unique-invariant-descriptions", "two parents with the same description", '"Label non-empty")', '"Name non-empty")'),
+    ("unique-invariant-descriptions", "own description equals an inherited one", '"Size non-empty")', '"Ident non-empty")'),
+    ("unique-invariant-descriptions", "parent's description equals the grand parent's", '"Name non-empty")', '"Ident non-empty")'),
+    ("no-redeclared-inherited-members", "property of one parent again in the other", "    label: str\n", "    name: str\n"),
+    ("no-redeclared-inherited-members", "property of the grand parent again", "    size: str\n", "    ident: str\n"),
+    ("constructor-matches-properties", "arguments in the order of the other parent",
+     "ident: str, name: str, label: str, size: str", "ident: str, label: str, name: str, size: str"),
+    ("acyclic-inheritance", "cycle through two parents", "class Identifiable(DBC):", "class Identifiable(Item, DBC):"),
+    ("inheritance-from-existing-classes", "one of two parents unknown", "class Item(Named, Labeled):", "class Item(Named, Unknown):"),
+]
+
+
 def bounded(seed: int = 0, **_: Any) -> Dict[str, Any]:
     failures: List[Dict[str, Any]] = []
     samples: List[Dict[str, Any]] = []
     cases = 0
     rules = set()
     with tempfile.TemporaryDirectory() as d:
-        cases += 1
-        verdict, detail = _load(BASE, d)
-        if verdict != "accepted":
-            failures.append({"mutant": "<base model>", "observed": f"the base model is {verdict}: {detail}"})
-        for rule, name, old, new in MUTANTS:
+        for base_name, base, mutants in (("base", BASE, MUTANTS), ("base with two parents", BASE_MI, MUTANTS_MI)):
             cases += 1
-            rules.add(rule)
-            if BASE.count(old) != 1:
-                failures.append({"mutant": name, "observed": "checker error: the replaced text is not unique in the base"})
-                continue
-            text = BASE.replace(old, new)
-            verdict, detail = _load(text, d)
-            if verdict == "raised":
-                failures.append({"rule": rule, "mutant": name, "property": "C01", "observed": f"the front end raised {detail}",
-                                 "meta_model": text})
-            elif verdict == "accepted":
-                failures.append({"rule": rule, "mutant": name, "property": "C06",
-                                 "observed": "the meta-model breaking the rule is accepted", "meta_model": text})
-            elif len(samples) < 3:
-                samples.append({"rule": rule, "mutant": name, "error": detail[:200]})
+            verdict, detail = _load(base, d)
+            if verdict != "accepted":
+                failures.append({"mutant": f"<{base_name}>", "observed": f"the {base_name} model is {verdict}: {detail}"})
+            for rule, name, old, new in mutants:
+                cases += 1
+                rules.add(rule)
+                if base.count(old) != 1:
+                    failures.append({"mutant": name, "observed": "checker error: the replaced text is not unique in the base"})
+                    continue
+                text = base.replace(old, new)
+                verdict, detail = _load(text, d)
+                if verdict == "raised":
+                    failures.append({"rule": rule, "mutant": name, "property": "C01",
+                                     "observed": f"the front end raised {detail}", "meta_model": text})
+                elif verdict == "accepted":
+                    failures.append({"rule": rule, "mutant": name, "property": "C06",
+                                     "observed": "the meta-model breaking the rule is accepted", "meta_model": text})
+                elif len(samples) < 3:
+                    samples.append({"rule": rule, "mutant": name, "error": detail[:200]})
     return {"cases": cases, "distinct": len(rules), "failures": failures[:6], "exhaustive": False, "samples": samples}
